@@ -61,3 +61,21 @@ def run(check):
     check.programs += len(runs)
     check.extra['exhaustive'] = True
     usimrun.judge(check, OBS, runs)
+
+
+def replay(path):
+    import json
+    import shutil
+    with open(path) as fh:
+        body = json.load(fh)
+    trace = _one(body['program'])
+    check = core.Check('C13', 'quick', 0)
+    rej = check.validate(OBS, [trace], label='replay')
+    shutil.rmtree(check.tmp, ignore_errors=True)
+    for e in trace:
+        print(json.dumps(e))
+    if rej:
+        print('VIOLATION property=C13 replay=%s clause=%s at event %d' % (path, rej[0][1], rej[0][2]))
+        return 1
+    print('replay of %s: trace accepted by %s' % (path, OBS))
+    return 0
